@@ -68,8 +68,8 @@ def _blank(s):
 
 
 def spec(kind: str, line: str) -> str:
-    if "\n" in line:
-        return None  # not a chart line (lines come from splitlines); nothing promised
+    # a line feed is a blank like any other (padding); inside a value it is an ordinary character for `E <word>` and quoted
+    # text, and impossible inside a lyric / section value (those are single-line by the format)
     tick, r = _digits(_lead(line))
     if tick is None or not r.startswith(" = "):
         return "none"
@@ -92,7 +92,7 @@ def spec(kind: str, line: str) -> str:
         if not r.startswith("A "):
             return "none"
         v, rest = _digits(r[2:])
-        return f"anchor {t} {int(v)}" if v is not None and rest == "" else "none"
+        return f"anchor {t} {int(v)}" if v is not None and rest in ("", "\n") else "none"  # no padding after an anchor; a final line feed is not padding
     if kind == "ts":
         if not r.startswith("TS "):
             return "none"
@@ -121,7 +121,7 @@ def spec(kind: str, line: str) -> str:
         if not v.endswith('"'):
             return "none"
         v = v[:-1]
-        if kind == "text" and '"' in v:
+        if (kind == "text" and '"' in v) or (kind != "text" and "\n" in v):
             return "none"
         return f"ev{KIND_ID[kind]} {t} {impl.cps(v)}"
     return None
@@ -157,7 +157,7 @@ def replay(data):
     return (data.get("truth") is not None and i != data["truth"]), i
 
 
-ALPHABET = list("0123456789 =NSEBTA\"[]{}xé\t") + ["٣", "７", "\xa0", " ", "lyric ", "section ", " = ", " N ", " S 2 ", " E "]
+ALPHABET = list("0123456789 =NSEBTA\"[]{}xé\t\n") + ["٣", "７", "\xa0", " ", "lyric ", "section ", " = ", " N ", " S 2 ", " E "]
 
 
 def random_string(rng: random.Random) -> str:
